@@ -242,6 +242,18 @@ check:
 				break check
 			}
 		}
+		// A submodule also sees what the module it belongs to and that
+		// module's other submodules define (RFC 7950, section 5.1).
+		if owner := belongingModule(root); owner != nil {
+			if td = d.find(owner, name); td != nil {
+				break check
+			}
+			for _, in := range owner.Include {
+				if td = d.find(in.Module, name); td != nil {
+					break check
+				}
+			}
+		}
 		var pname string
 		switch {
 		case prefix == "", prefix == rootPrefix:
